@@ -8,6 +8,7 @@ import OxiaVerif.Model.Codec
 import OxiaVerif.Driver.DbProto
 import OxiaVerif.Model.Shard
 import OxiaVerif.Model.Select
+import OxiaVerif.Model.Batch
 
 /-! Line-protocol dispatch: one operation line in, one output line out. -/
 namespace Oxia.Driver
@@ -421,6 +422,90 @@ def stepSelect (st : State) (toks : List String) : State × String :=
     (st, showNatList (Select.replaceInList l ((get "old").toNat?.getD 0) ((get "new").toNat?.getD 0)))
   | _ => (st, "bad-op")
 
+def parseEv (t : String) : Option Batch.Ev :=
+  if t == "t" then some .timer
+  else if t == "x" then some .close
+  else if t.startsWith "c" then
+    match (t.drop 1).toString.splitOn ":" with
+    | [i, sz] => match i.toNat?, sz.toNat? with
+      | some i, some sz => some (.call { id := i, size := sz })
+      | _, _ => none
+    | _ => none
+  else none
+
+def showOutcome : Batch.Outcome → String
+  | .completed b => "b" ++ toString b
+  | .failedShutdown => "x"
+
+def parseAns (t : String) : Option Batch.Ans :=
+  if t == "n" then some .notFound
+  else if t == "e" then some .error
+  else if t.startsWith "f:" then (Hex.decode (t.drop 2).toString).map .found
+  else none
+
+def parseBCmp : String → Option Batch.Cmp
+  | "eq" => some .equal | "floor" => some .floor | "ceil" => some .ceiling | "lower" => some .lower | "higher" => some .higher
+  | _ => none
+
+def stepBatch (st : State) (toks : List String) : State × String :=
+  let get (k : String) : String := (DbProto.kvOf toks k).getD "_"
+  match toks with
+  | "b.run" :: _ =>
+    let cfg : Batch.Cfg := { linger := (get "linger").toNat?.getD 0, maxRequests := (get "maxreq").toNat?.getD 0,
+                             maxBytes := (get "maxbytes").toNat?.getD 0, rearmAfterSplit := Facts.batcherRearmsTimerAfterSplit }
+    match ((get "ev").splitOn ",").mapM parseEv with
+    | some evs =>
+      let s := Batch.run cfg (evs ++ [.close])
+      let outs := sortBy (fun (a b : Nat × Batch.Outcome) => a.1 ≤ b.1) s.outcomes
+      (st, String.intercalate " " (outs.map fun p => toString p.1 ++ ":" ++ showOutcome p.2) ++ " B[" ++
+        String.intercalate "|" (s.batches.map fun b => String.intercalate "+" (b.map (toString ·.id))) ++ "] open=" ++
+        (match s.cur with | some b => String.intercalate "+" (b.map (toString ·.id)) | none => "_"))
+    | none => (st, "bad-op")
+  | "wb.run" :: _ =>
+    -- one write batch: kinds of the calls 0..n-1 in arrival order, script of executor answers
+    let kinds : List Batch.Kind := ((get "kinds").splitOn ",").filterMap fun t =>
+      if t == "P" then some .put else if t == "D" then some .delete else if t == "R" then some .deleteRange else none
+    let calls := (List.range kinds.length).zip kinds
+    let script : List (Batch.Exec Nat) := ((get "script").splitOn ",").map fun t =>
+      if t == "r" then .retriable else if t == "f" then .fatal else .ok []
+    let all (t : String) := String.intercalate " " ((List.range kinds.length).map fun i => toString i ++ "=" ++ t)
+    (st, match Batch.withRetries script with
+      | some (.ok _) =>
+        let m := sortBy (fun (a b : Nat × Nat) => a.1 ≤ b.1) (Batch.writeHandle calls id)
+        String.intercalate " " (m.map fun p => toString p.1 ++ "=" ++ toString p.2)
+      | some .fatal => all "fatal"
+      | _ => all "timeout")
+  | "rb.run" :: _ =>
+    let n := (get "n").toNat?.getD 0
+    let script : List Batch.RAttempt := ((get "script").splitOn ",").filterMap fun t =>
+      if t == "o" then some .ok
+      else if t.startsWith "r" then (t.drop 1).toString.toNat?.map .partialRetriable
+      else if t.startsWith "f" then (t.drop 1).toString.toNat?.map .partialFatal
+      else none
+    let all (t : String) := String.intercalate " " ((List.range n).map fun i => toString i ++ "=" ++ t)
+    (st, match Batch.readWithRetries Facts.readBatchFreshResponsePerAttempt (List.range n) script [] with
+      | some (.ok resps) => (match Batch.handle (List.range n) resps with
+        | some m => String.intercalate " " (m.map fun p => toString p.1 ++ "=" ++ toString p.2)
+        | none => "panic")
+      | some .fatal => all "fatal"
+      | _ => all "timeout")
+  | "mg.run" :: _ =>
+    match parseBCmp (get "cmp"), ((get "ans").splitOn ",").mapM parseAns with
+    | some c, some answers =>
+      let order := parseNatList (get "order")
+      let arrivals := order.filterMap fun i => answers[i]?
+      let s := Batch.multiShardGetN Facts.multiShardGetReturnsAfterError c answers.length arrivals
+      -- the counter starts at the number of shards
+      (st, (if s.panicked then "panic " else "") ++ "sent=" ++ String.intercalate "," (s.sent.map fun o =>
+        match o with | .value (some k) => "v:" ++ Hex.encode k | .value none => "nf" | .failed => "fail"))
+    | _, _ => (st, "bad-op")
+  | "km.run" :: _ =>
+    let lists : List (List Key) := if get "lists" == "_" then [] else
+      ((get "lists").splitOn ";").map fun l => if l == "" then [] else (l.splitOn ",").filterMap Hex.decode
+    let total := (lists.map List.length).sum
+    (st, String.intercalate "," ((Batch.kwayMerge total lists).map Hex.encode))
+  | _ => (st, "bad-op")
+
 def step (st : State) (line : String) : State × String :=
   let toks := (line.splitOn " ").filter (· ≠ "")
   match toks with
@@ -434,6 +519,7 @@ def step (st : State) (line : String) : State × String :=
     else if t.startsWith "db." || t.startsWith "idx." then stepDb st toks
     else if t.startsWith "sh." || t.startsWith "cs." || t.startsWith "cl." then stepShard st toks
     else if t.startsWith "sel." then stepSelect st toks
+    else if t.startsWith "b." || t.startsWith "wb." || t.startsWith "rb." || t.startsWith "mg." || t.startsWith "km." then stepBatch st toks
     else (st, "bad-op")
 
 end Oxia.Driver
